@@ -50,9 +50,17 @@ def _pmul(a, b):
 
 class S:
     """scalar polynomial in dt with provenance kinds of the dt occurrences"""
-    def __init__(self, poly, kinds=frozenset()):
+    vec = None      # None: scalar / per-cell value ; "row": 1-D array over the packed unknowns (numpy broadcasts
+                    # it along the last axis of a matrix: COLUMN scaling) ; "col": the same with [:, None] (ROW scaling)
+
+    def __init__(self, poly, kinds=frozenset(), vec=None):
         self.poly = {k: Fraction(c) for k, c in poly.items() if c != 0}
         self.kinds = frozenset(kinds)
+        if vec is not None:
+            self.vec = vec
+
+    def as_vec(self, vec):
+        return S(self.poly, self.kinds, vec)
 
     @staticmethod
     def lift(v):
@@ -85,10 +93,10 @@ class S:
         return S({k: -c for k, c in self.poly.items()}, self.kinds)
 
     def __mul__(self, o):
-        if isinstance(o, (AArr, Op, Packed)):
+        if isinstance(o, (AArr, Op, Packed, JacMat)):
             return o.__rmul__(self)
         o = S.lift(o)
-        return S(_pmul(self.poly, o.poly), self.kinds | o.kinds)
+        return S(_pmul(self.poly, o.poly), self.kinds | o.kinds, self.vec or o.vec)
 
     __rmul__ = __mul__
 
@@ -97,7 +105,7 @@ class S:
         if len(o.poly) != 1:
             raise AnalysisError("division by a non-monomial scalar")
         (k, c), = o.poly.items()
-        return S({a - k: b / c for a, b in self.poly.items()}, self.kinds | o.kinds)
+        return S({a - k: b / c for a, b in self.poly.items()}, self.kinds | o.kinds, self.vec or o.vec)
 
     def __rtruediv__(self, o):
         return S.lift(o) / self
@@ -296,35 +304,52 @@ class Opaque:
 
 
 class Op:
-    """matrix  sum_k c_k dt^k * I  +  b * J"""
-    def __init__(self, ident=None, jac=None, jtag=None):
+    """matrix  sum_k c_k D^k  +  b * D^rowp J D^colp   with D = diag(dt) (dt scalar or one value per
+    cell): the identity part commutes with D, the Jacobian part does not for a local-time-step array"""
+    def __init__(self, ident=None, jac=None, jtag=None, rowp=0, colp=0):
         self.ident = dict(ident or {})    # dt-poly
         self.jac = Fraction(jac or 0)
         self.jtag = jtag
+        self.rowp, self.colp = rowp, colp
+
+    def _same_scaling(self, o):
+        if self.jac and o.jac and (self.rowp, self.colp) != (o.rowp, o.colp):
+            raise AnalysisError("sum of Jacobian terms with different dt scalings")
+        a = self if self.jac else o
+        return a.rowp, a.colp
 
     def __add__(self, o):
         if isinstance(o, Op):
-            return Op(_padd(self.ident, o.ident), self.jac + o.jac, self.jtag if self.jtag is not None else o.jtag)
+            r, c = self._same_scaling(o)
+            return Op(_padd(self.ident, o.ident), self.jac + o.jac, self.jtag if self.jtag is not None else o.jtag, r, c)
         raise AnalysisError("matrix + non-matrix")
 
     def __sub__(self, o):
         if isinstance(o, Op):
-            return Op(_padd(self.ident, o.ident, -1), self.jac - o.jac, self.jtag if self.jtag is not None else o.jtag)
+            r, c = self._same_scaling(o)
+            return Op(_padd(self.ident, o.ident, -1), self.jac - o.jac, self.jtag if self.jtag is not None else o.jtag, r, c)
         raise AnalysisError("matrix - non-matrix")
 
     def __neg__(self):
-        return Op({k: -c for k, c in self.ident.items()}, -self.jac, self.jtag)
+        return Op({k: -c for k, c in self.ident.items()}, -self.jac, self.jtag, self.rowp, self.colp)
 
     def __rmul__(self, s):
         s = S.lift(s)
-        if self.jac and not s.is_const():
-            raise AnalysisError("Jacobian scaled by a dt-dependent factor")
-        return Op(_pmul(self.ident, s.poly), self.jac * s.const() if s.is_const() else 0, self.jtag)
+        if not self.jac or s.is_const():
+            return Op(_pmul(self.ident, s.poly), self.jac * s.const() if s.is_const() else 0, self.jtag, self.rowp, self.colp)
+        if len(s.poly) != 1:
+            raise AnalysisError("Jacobian scaled by a non-monomial dt-dependent factor")
+        (k, c), = s.poly.items()
+        if s.vec == "col":
+            return Op(_pmul(self.ident, s.poly), self.jac * c, self.jtag, self.rowp + k, self.colp)
+        if s.vec == "row":
+            return Op(_pmul(self.ident, s.poly), self.jac * c, self.jtag, self.rowp, self.colp + k)
+        raise AnalysisError("Jacobian scaled by a dt-dependent factor that is not an array over the unknowns")
 
     __mul__ = __rmul__
 
     def __repr__(self):
-        return "(%r)*I + (%s)*J" % (S(self.ident), self.jac)
+        return "(%r)*I + (%s)*D^%d J D^%d" % (S(self.ident), self.jac, self.rowp, self.colp)
 
 
 class Packed:
@@ -471,8 +496,7 @@ class JacMat:
         self.stores = []     # (row index, col index, value)
 
     def __rmul__(self, s):
-        s = S.lift(s)
-        return Op({}, s.const() if s.is_const() else 0, -1)
+        return Op({}, 1, -1).__rmul__(s)
 
     __mul__ = __rmul__
 
@@ -927,6 +951,12 @@ class AffInterp:
             return o.slots[self.slot(idx, func, node)].copy()
         if isinstance(o, dict):
             return o[idx]
+        if isinstance(o, S) and isinstance(idx, tuple) and len(idx) == 2 and o.vec is not None:
+            # v[:, None] (column vector: scales rows) / v[None, :] (row vector: scales columns)
+            if idx[1] is None and isinstance(idx[0], slice):
+                return o.as_vec("col")
+            if idx[0] is None and isinstance(idx[1], slice):
+                return o.as_vec("row")
         if isinstance(o, JacMat):
             return ("jacview", idx)
         if isinstance(o, AArr) and isinstance(idx, Idx):
@@ -1188,10 +1218,13 @@ class AffInterp:
         if base == "ones":
             return S({0: 1})
         if base == "repeat":
-            return args[0]
+            v = args[0]
+            return v.as_vec("row") if isinstance(v, S) else v      # one entry per packed unknown
         if base == "diag":
             d = S.lift(args[0])
             return Op(d.poly, 0)
+        if base in ("eye", "identity"):
+            return Op({0: Fraction(1)}, 0)
         if base == "solve":
             mat, rhs = args
             if not (isinstance(mat, Op) and isinstance(rhs, Packed)):
